@@ -297,6 +297,16 @@ def catalogue(big=False):
                                 call("R", binds={"xs": self_("xs")})],
                                {"n": ref("R", "n")})], "TOP", {"xs": [7, 8, 9]}))
 
+    # 13c. a splitting stage that returns nothing at all, neither from its chunks nor from its
+    #      join (it is run for its side effects), with three chunks
+    P.append(program("split_nothing", [],
+                     [stage("S", "int[] xs", "", {}, split=True, chunks={"k": "len", "src": "xs"}, couts="", crules={}),
+                      stage("R", "int[] xs", "int n", {"n": length("xs")})],
+                     [pipeline("TOP", "int[] xs", "int n",
+                               [call("S", binds={"xs": self_("xs")}),
+                                call("R", binds={"xs": self_("xs")})],
+                               {"n": ref("R", "n")})], "TOP", {"xs": [7, 8, 9]}))
+
     # 14. two mapped levels: the inner map call splits the output of a stage that is
     #     itself forked by the outer map call
     P.append(program("map_nested", [],
